@@ -22,10 +22,9 @@
     to the code only by reading and by the real-thread exploration of checks/C05.py with the same monitors - there is
     no step correspondence for them.  Modelling assumptions (stated at the top of the model files): signal delivery +
     handler = one atomic step of a delivery pseudo-thread; mutex/condvar hand-offs to the reclamation thread = atomic
-    test-and-post / test-and-take; join = a counter.  signal_buffered: theorems C04_shb_* (full).  general_threaded:
-    C04_gpt_no_dispose_inside_old_reader_partial (the grace-period and epoch facts for any state satisfying the
-    invariants; the preservation of the product invariant across the hand-off is NOT proved, the full statement is
-    visible as gpt_no_dispose_inside_old_reader_statement).
+    test-and-post / test-and-take; join = a counter.  signal_buffered: theorems C04_shb_*.  general_threaded: theorems
+    C04_gpt_* (the grace period of the caller is carried across the mailbox to the reclamation thread as a fact about
+    the trace; Destruct's quit mode relies on the modelled join: all clients have left their sections).
 
     The sentence of C04 about raw_ptr / exempt_ptr ("pointers handed out by RCU containers stay valid until
     released outside the lock") is NOT a statement about the RCU core: such a pointer stays valid because the
@@ -35,7 +34,8 @@
     harnesses; nothing here claims it. *)
 From Coq Require Import ZArith List String.
 From LV Require Import Base.Conc Base.Events Model.RcuGp Model.RcuBuf Model.RcuSignal Model.RcuThreaded Proofs.RcuGpInv
-  Proofs.RcuGpSafe Proofs.RcuGpRefute Proofs.RcuBufInv Proofs.RcuBufEpoch Proofs.RcuBufProd Proofs.RcuSignalProofs Proofs.RcuThrGrace.
+  Proofs.RcuGpSafe Proofs.RcuGpRefute Proofs.RcuBufInv Proofs.RcuBufEpoch Proofs.RcuBufProd Proofs.RcuSignalProofs Proofs.RcuThrGrace
+  Proofs.RcuThrProd.
 Import ListNotations.
 Local Open Scope string_scope.
 
@@ -106,18 +106,24 @@ Theorem C04_shb_no_dispose_inside_old_reader :
 Proof. exact shb_dispose_safe_all. Qed.
 Print Assumptions C04_shb_no_dispose_inside_old_reader.
 
-(** general_threaded, PARTIAL (see the header and LV.Proofs.RcuThrGrace): in any state satisfying the gp invariant and
-    the epoch invariant, once the caller of synchronize has finished its two flip_and_wait (marker i = position of its
-    fetch_add, which returned n), every buffer entry of epoch <= n was retired before i and every reader that was
-    inside at its retirement has left - at that moment and at any later time, so the reclamation thread may free it. *)
-Theorem C04_gpt_no_dispose_inside_old_reader_partial :
-  forall g a aE tr w i n p e k,
-    Inv g a tr -> InvE g aE tr -> l_w (a w) = WFin i -> e_s aE w = EIn i n ->
-    In (p, e, k) (e_buf aE) -> (e <= n)%Z ->
-    (exists w', at_ tr k w' (is_retire p)) /\ k < i /\
-    forall x r s, open_at (tr ++ x)%list r s k -> exists b, k < b < List.length (tr ++ x)%list /\ at_ (tr ++ x)%list b r is_runlock0.
-Proof. exact gpt_no_dispose_inside_old_reader_partial. Qed.
-Print Assumptions C04_gpt_no_dispose_inside_old_reader_partial.
+(** general_threaded (threads 0..n-1 clients, thread n the reclamation thread, thread n+1 the destructor): no object is
+    disposed - by a caller on the overflow path, by the reclamation thread for a handed epoch, or by the reclamation
+    thread draining the buffer at Destruct - while a reader that entered before its retirement is inside; and
+    synchronize (fetch_add, lock, two flips, hand-off) returns only after all pre-existing readers have left. *)
+Theorem C04_gpt_no_dispose_inside_old_reader :
+  forall (sfuel rounds : nat) (cap : Z) (cnt : bool) (ths : list (list RcuBuf.bop)) c,
+    Conc.reach (RcuThreaded.tinit_cfg sfuel rounds cap cnt ths) c ->
+    forall w p d, at_ (Conc.trace c) d w (is_dispose p) ->
+      exists k w', k < d /\ at_ (Conc.trace c) k w' (is_retire p) /\
+        forall r s, open_at (Conc.trace c) r s k -> exists b, k < b < d /\ at_ (Conc.trace c) b r is_runlock0.
+Proof. exact gpt_dispose_safe_all. Qed.
+Print Assumptions C04_gpt_no_dispose_inside_old_reader.
+
+Theorem C04_gpt_synchronize_waits :
+  forall (sfuel rounds : nat) (cap : Z) (cnt : bool) (ths : list (list RcuBuf.bop)) c,
+    Conc.reach (RcuThreaded.tinit_cfg sfuel rounds cap cnt ths) c -> sync_waits (Conc.trace c).
+Proof. exact gpt_synchronize_waits_all. Qed.
+Print Assumptions C04_gpt_synchronize_waits.
 
 (** gp_single_flip_refuted (non-vacuity regression): the same model with ONE flip_and_wait in synchronize has a
     reachable trace that violates the statement of C04_gp_synchronize_waits. *)
@@ -160,3 +166,12 @@ Example C04_shb_nonvacuous :
   snd r = true /\ map (fun p => ndisp p (fst r)) [1; 2; 3; 4; 5]%Z = [1; 1; 1; 1; 1]%nat /\
   List.length (filter (is_cli "sync_end") (map snd (fst r))) = 1%nat.
 Proof. vm_compute. repeat split; reflexivity. Qed.
+
+(** general_threaded: two clients, capacity 2; reader 0 enters a section, client 1 retires five objects; the reclamation
+    thread (thread 2) disposes at least one of them, a synchronize of client 1 completes, the destructor stops the thread *)
+Example C04_gpt_nonvacuous :
+  let r := RcuThreaded.run_case [300; 2; 0; 20]%Z [[[1]; [3]; [9]; [4]]; [[1]; [6; 1]; [6; 2]; [6; 3]; [10; 4; 5]; [5]]]%Z [] 6000 in
+  snd r = true /\ List.length (filter (is_cli "sync_end") (map snd (fst r))) = 1%nat /\
+  List.length (filter (fun x => andb (Nat.eqb (fst x) 2) (is_cli "dispose" (snd x))) (fst r)) >= 1 /\
+  List.length (filter (fun x => andb (Nat.eqb (fst x) 0) (is_rlock1 (snd x))) (fst r)) = 1%nat.
+Proof. vm_compute. repeat split; try reflexivity. repeat constructor. Qed.
